@@ -136,7 +136,8 @@ class Check:
 
     def run_impl(self, mode, lines, timeout=None):
         """runs the Rust harness; a hang (C04) is located by bisection and answered as `(hang)`"""
-        budget = timeout or max(60, 0.05 * len(lines))
+        # a compilation takes milliseconds: a short list gets a short budget (a hang is then located quickly)
+        budget = timeout or max(12 if len(lines) <= 200 else 60, 0.05 * len(lines))
         try:
             rc, out, err, dt = sh([BEFFH, mode, "run"], input="\n".join(lines) + "\n", timeout=budget)
             res = [l for l in out.split("\n") if l.strip()]
@@ -152,8 +153,9 @@ class Check:
             if len(lines) == 1:
                 return ["(hang)\t(oracle fail c04.hang)"], 0, "timeout"
             mid = len(lines) // 2
-            a, rc1, e1 = self.run_impl(mode, lines[:mid], timeout=max(20, budget / 2))
-            b, rc2, e2 = self.run_impl(mode, lines[mid:], timeout=max(20, budget / 2))
+            sub = max(8 if len(lines) <= 400 else 20, budget / 2)
+            a, rc1, e1 = self.run_impl(mode, lines[:mid], timeout=sub)
+            b, rc2, e2 = self.run_impl(mode, lines[mid:], timeout=sub)
             if len(a) != mid:
                 return a, rc1, e1
             return a + b, rc2, e2
